@@ -214,13 +214,17 @@ def run_prog(case, pid, at_limit_fn=None, on_step=None):
                     break
                 continue
             before = at_limit_fn(cache, model, op) if at_limit_fn else None
-            got = run_op(cache, op, {'stream_rng': sim.rng_os})
             if name == 'cull':
-                want = model.op_expire(op, now)
-                if at_limit_fn is None:
-                    pass
-            else:
-                want = model.do(op, now)
+                vol_before = cache.volume()
+                got = run_op(cache, op)
+                want_exp = model.op_expire(op, now)
+                check_cull(cache, model, raw, got, want_exp, vol_before, violations, pid, probes)
+                if violations:
+                    violations[-1]['detail'] = 'after op #%d cull: %s' % (idx, violations[-1]['detail'])
+                    break
+                continue
+            got = run_op(cache, op, {'stream_rng': sim.rng_os})
+            want = model.do(op, now)
             if want is not None and tuple(got) != tuple(want):
                 violations.append({'rule': '%s/result' % pid, 'sig': name,
                                    'detail': 'op #%d %s at t=%r: got %s, model %s' % (idx, json.dumps(op)[:120], now, got, want)})
@@ -246,6 +250,45 @@ def run_prog(case, pid, at_limit_fn=None, on_step=None):
     finally:
         world.close()
     return violations, stats
+
+
+def check_cull(cache, model, raw, got, want_exp, vol_before, violations, pid, probes):
+    """Explicit cull(): expired items first (exact), then policy eviction until
+    volume() <= size_limit or the cache is empty; returns the number removed."""
+    obs = set(raw.rowids())
+    have = set(model.rows)
+    extra = obs - have
+    if extra:
+        violations.append({'rule': '%s/unexplained-row' % pid, 'sig': 'extra', 'detail': str(sorted(extra)[:5])})
+        return
+    evicted = [model.rows[r] for r in sorted(have - obs)]
+    n_exp = int(want_exp[1][2:])
+    if got[0] != 'ok':
+        violations.append({'rule': '%s/result' % pid, 'sig': 'cull', 'detail': 'cull() -> %s' % (got,)})
+        return
+    n_got = int(got[1][2:])
+    if n_got != n_exp + len(evicted):
+        violations.append({'rule': '%s/cull-return-value' % pid, 'sig': 'policy=%s' % model.policy,
+                           'detail': 'cull() returned %d but removed %d expired + %d evicted items' % (n_got, n_exp, len(evicted))})
+    if evicted:
+        probes['cull_policy'] = probes.get('cull_policy', 0) + len(evicted)
+        if model.policy == 'none':
+            violations.append({'rule': '%s/policy-none-evicted' % pid, 'sig': 'cull', 'detail': str([fp(i.key) for i in evicted][:5])})
+        elif vol_before <= model.size_limit:
+            violations.append({'rule': '%s/evicted-below-size-limit' % pid, 'sig': 'cull:policy=%s' % model.policy,
+                               'detail': 'cull() evicted %d live items although volume()=%d <= size_limit=%d' % (
+                                   len(evicted), vol_before, model.size_limit)})
+        else:
+            model._check_policy_order(evicted, [], violations, pid)
+        for it in evicted:
+            model._delete(it)
+        model.evictions += len(evicted)
+    if model.policy != 'none':
+        vol_after = cache.volume()
+        if vol_after > model.size_limit and len(model.rows) > 0:
+            violations.append({'rule': '%s/cull-incomplete' % pid, 'sig': 'policy=%s' % model.policy,
+                               'detail': 'after cull(): volume()=%d > size_limit=%d with %d items left' % (
+                                   vol_after, model.size_limit, len(model.rows))})
 
 
 def final_compare(cache, model, raw, now, violations, pid):
